@@ -329,7 +329,7 @@ var (
 		if shouldValidate, err := checkLegal(opts, name, version, recordType, def); err != nil {
 			return "", err
 		} else if shouldValidate {
-			if _, err := strconv.Atoi(value); err != nil {
+			if _, err := strconv.ParseUint(value, 10, 31); err != nil {
 				return "", err
 			}
 		}
@@ -339,7 +339,7 @@ var (
 		if shouldValidate, err := checkLegal(opts, name, version, recordType, def); err != nil {
 			return "", err
 		} else if shouldValidate {
-			if _, err := strconv.ParseInt(value, 0, 64); err != nil {
+			if _, err := strconv.ParseUint(value, 10, 63); err != nil {
 				return "", err
 			}
 		}
